@@ -17,22 +17,22 @@ fn per_baseline(t: Tier) -> u64 {
 
 fn budget(t: Tier) -> u64 {
     match t {
-        Tier::Quick => 30 * per_baseline(t),
-        Tier::Thorough => 180 * per_baseline(t),
+        Tier::Quick => 36 * per_baseline(t),
+        Tier::Thorough => 216 * per_baseline(t),
     }
 }
 
-const LOADS: [&str; 5] = ["idle", "closed_loop", "flood", "idle_long", "health_fd_exhausted"];
+const LOADS: [&str; 6] = ["idle", "closed_loop", "flood", "idle_long", "health_fd_exhausted", "recv_errors"];
 
 fn baseline(b: u64) -> Plan {
     let bseed = Rng::derive(crate::driver::base_seed().wrapping_add(b), "c19-baseline").next_u64() >> 1;
     let mut rng = Rng::derive(bseed, "c19");
-    let load = LOADS[(b % 5) as usize];
+    let load = LOADS[(b % 6) as usize];
     let mut plan = Plan::new("C19", &format!("c19.{}", load), bseed);
     let mut s = ServerSpec::basic(Mode::F, &random_seed_hex(&mut rng));
-    s.workers = [1i64, 4, 16][((b / 5) % 3) as usize];
+    s.workers = [1i64, 4, 16][((b / 6) % 3) as usize];
     s.source = if rng.chance(1, 2) { ConfigSource::File } else { ConfigSource::Env };
-    if (b / 15) % 2 == 1 {
+    if (b / 18) % 2 == 1 {
         s.client_stats = Some("on".into());
         s.persist_dir = Some("/tmp".into());
         s.status_interval = Some(*rng.pick(&[1i64, 10]));
@@ -44,6 +44,22 @@ fn baseline(b: u64) -> Plan {
     plan.params.insert("sig".into(), if rng.chance(1, 2) { 2 } else { 15 });
     match load {
         "idle" => {}
+        "recv_errors" => {
+            // a few closed-loop clients, and from some moment on every recv_from on a non-empty
+            // socket fails (ENOBUFS-like condition that persists), possibly lifted later
+            let clients = 1 + rng.below(4) as u32;
+            for c in 0..clients {
+                plan.step(20_000 + rng.below(500), Action::ClosedLoop { sock: c, protos: vec![P::Classic, P::Ietf], count: 10_000, think_us: *rng.pick(&[2_000u64, 10_000]), timeout_ms: 200 });
+            }
+            // (the unchanged server busy-loops while this lasts: keep the stretch before the
+            // latest signal instant short and the machine not faster than nominal)
+            plan.world.cost_scale = plan.world.cost_scale.max(1000);
+            let t0 = 180_000 + rng.below(60_000);
+            plan.step(t0, Action::SetFault { kind: "recv_err".into(), permille: *rng.pick(&[1000u32, 1000, 500]) });
+            if rng.chance(1, 3) {
+                plan.step(t0 + 300_000 + rng.below(2_000_000), Action::SetFault { kind: "recv_err".into(), permille: 0 });
+            }
+        }
         "health_fd_exhausted" => {
             // health checks while the process is out of file descriptors (accept fails with EMFILE
             // and the connection stays queued), some requests as well
@@ -239,6 +255,7 @@ fn check(plan: &Plan, out: &RunOut) -> CheckOut {
         "closed_loop" => "load_closed_loop",
         "idle_long" => "load_idle_long",
         "health_fd_exhausted" => "load_health_fd_exhausted",
+        "recv_errors" => "load_recv_errors",
         _ => "load_flood",
     });
     co.sample = Some(serde_json::json!({
@@ -258,7 +275,7 @@ pub fn property() -> Property {
         gen,
         check,
         finalize: no_finalize,
-        rule: "baselines = real main() booted with num_workers {1,4,16} x client_stats off/on x load {idle, long idle (20-60 simulated s), health checks while accept() fails with EMFILE, closed-loop clients, open-loop flood of one worker with inter-arrival time below the modelled service time}; for each baseline (fixed plan + tape) the scheduling points after every worker has started serving are counted and SIGINT or SIGTERM is delivered at point k — 40 stratified points per baseline (quick) or 600 (thorough; every point when the baseline has fewer); a fifth of the runs deliver a second signal; the run continues 3.6 simulated s; non-trivial = the handler ran; distinct = distinct schedule fingerprints",
+        rule: "baselines = real main() booted with num_workers {1,4,16} x client_stats off/on x load {idle, long idle (20-60 simulated s), health checks while accept() fails with EMFILE, closed-loop clients while recv_from keeps failing, closed-loop clients, open-loop flood of one worker with inter-arrival time below the modelled service time}; for each baseline (fixed plan + tape) the scheduling points after every worker has started serving are counted and SIGINT or SIGTERM is delivered at point k — 40 stratified points per baseline (quick) or 600 (thorough; every point when the baseline has fewer); a fifth of the runs deliver a second signal; the run continues 3.6 simulated s; non-trivial = the handler ran; distinct = distinct schedule fingerprints",
         assumptions: &["exit deadline: 3 simulated seconds after the handler ran (100 ms poll timeout + 1 s reporter sleep + margin)", "flood verdicts depend on the service-time model: ~0.5 ms per request against one datagram every 0.2 ms"],
         real: REAL_F,
         stub: STUB,
